@@ -618,9 +618,6 @@ func (e *Env) selVal(x *SExpr, a Val, name string) Val {
 	// ghost fields
 	if gf, ok := fg.ghostField(a.Ty, name); ok {
 		ref := a
-		if ref.Loc != nil {
-			e.fail(x, "ghost field of interior address")
-		}
 		t, srt := e.resolveType(gf.ty)
 		if t != nil {
 			srt = e.sorts().sortOf(t)
